@@ -35,10 +35,11 @@ What is only stated (`C05.SimStatement`), with the hypotheses that are necessary
   * the frame does not shadow `n` (`Bound`): `n` is not an extension name, not `info`/`self`, not the name
     of the frame's own function (there, WITHOUT registers, the function wins over a parameter of the same
     name — finding `param-same-name-as-its-function`).
-Missing for the full statement: the cases of `evalI` that write the store (assignments to other
-variables, inner loops, index assignment, `del`) need the invariant "`n` stays bound to `.int v`"
-carried through `createOrSet`/`envDelete` (a `post_…` lemma per environment function, as in
-EvalSafeEnv.lean), and identifiers resolved through `makeRef` need it through the reference cache.
+Call-free STATEMENTS (assignments to other variables, `if`, statement lists, `print`, `return`/`break`/`continue`,
+identifiers resolved through references) are covered by `C05.simulation_stmt_partial` in RegSimStmt.lean, with the
+invariant carried through `createOrSet`/`envDelete`/`makeRef` in RegSimEnv.lean.  Still missing for the full
+statement: nested `for` loops, array/map literals, index reads and the remaining builtins (step lemmas of the same
+kind), and calls (where the statement is false without the callee hypothesis).
 The second half of the equivalence — a body that does not mention `n` evaluates the same whether or not
 the frame binds `n` (the register configuration has no binding, or a stale one) — is stated as
 `C05.IrrelevanceStatement`.
